@@ -239,6 +239,21 @@ Theorem C08_miter_total : forall inter mid width,
   pbound 1073741824 inter -> ds_point mid -> 0 <= width <= 1073741824 ->
   miter_ok inter mid width = true.
 Proof. exact miter_total. Qed.
+(* the point used for a join (intersection of two display-scale edge lines that are not nearly colinear, or the end of
+   the first edge) lies within +-13108481: SaturatingAs never saturates and `intersection - mid` cannot overflow *)
+Theorem C08_ip_intersection_bound : forall l1 l2 p,
+  edge_line l1 -> edge_line l2 -> nearly_colinear l1 l2 = false ->
+  ip_intersection l1 l2 = Some p -> pbound 13108481 p.
+Proof. exact ip_intersection_bound. Qed.
+Theorem C08_join_point_bound : forall second first p,
+  edge_line second -> edge_line first -> join_point second first = Some p -> pbound 13108481 p.
+Proof. exact join_point_bound. Qed.
+(* LineJoin::from_points on the four edge lines of two display-scale thick segments: intersections, the
+   self-intersection test and the miter test are total *)
+Theorem C08_join_edges_total : forall fl fr sl sr mid width,
+  edge_line fl -> edge_line fr -> edge_line sl -> edge_line sr ->
+  ds_point mid -> ds_width width -> join_edges_ok fl fr sl sr mid width = true.
+Proof. exact join_edges_total. Qed.
 Theorem C08_area_doubled_total : forall p1 p2 p3,
   ds_point p1 -> ds_point p2 -> ds_point p3 -> area_doubled_ok p1 p2 p3 = true.
 Proof. exact area_doubled_total. Qed.
